@@ -237,7 +237,7 @@ pub fn run_prop<T, S, F>(
         cases,
         failure_persistence: None,
         rng_seed: RngSeed::Fixed(ctx.sub_seed(sub)),
-        max_shrink_iters,
+        max_shrink_iters: if std::env::var_os("KVERIF_NOSHRINK").is_some() { 0 } else { max_shrink_iters },
         // shrinking only affects how small the replay file is, never the verdict
         max_shrink_time: 180_000,
         max_global_rejects: 65536,
